@@ -96,7 +96,12 @@ class ProbeRunner(SimulationRunner):
         self.attempts = {}
         self.successes = {}
 
+    abort_at = None          # raise RuntimeError in this (global) call, once
+
     def _run_simulation(self, current_params):
+        if self.abort_at is not None and len(self.trace) >= self.abort_at:
+            self.abort_at = None
+            raise RuntimeError("user code failed")
         vidx = current_params.unpack_index
         key = tuple(repr(current_params[n]) for n in sorted(self.spec.unpacked))
         att = self.attempts.get(vidx, 0)
@@ -228,8 +233,11 @@ def reconfigure(rng, s, runner):
     runner.spec = s2
     runner.rep_max = s2.rep_max
     for nm, val in s2.unpacked.items():
-        runner.params.add(nm, val)
-        runner.params.set_unpack_parameter(nm)
+        if rng.random() < 0.5:
+            runner.params[nm] = val          # item assignment (the name stays unpacked)
+        else:
+            runner.params.add(nm, val)
+            runner.params.set_unpack_parameter(nm)
     return s2
 
 
@@ -327,6 +335,15 @@ def check_lookup(ctx, runner, s, tag, rng):
             want_vals = [runner.results["ids"][i].get_result() for i in want_idx]
             ctx.ev("lookup-by-fixed-values", list(vals) == want_vals,
                    cls="get_result_values_list", detail={**d, "got": vals, "want": want_vals})
+        okc, cis = ctx.call("lookup-by-fixed-values",
+                            runner.results.get_result_values_confidence_intervals, "ids", 95.0,
+                            fixed, cls="confidence-intervals-raised", detail=d)
+        if okc:
+            want_ci = [runner.results["ids"][i].get_confidence_interval(95.0) for i in want_idx]
+            ctx.ev("lookup-by-fixed-values", len(cis) == len(want_ci) and all(
+                np.array_equal(np.asarray(a), np.asarray(b), equal_nan=True)
+                for a, b in zip(cis, want_ci)), cls="get_result_values_confidence_intervals",
+                detail={**d, "got": len(cis), "want": len(want_ci)})
     okc, allv = ctx.call("lookup-by-fixed-values", runner.results.get_result_values_list, "cnt",
                          detail=tag)
     if okc:
@@ -341,7 +358,21 @@ def case_runner(ctx, rng, idx):
     okc, runner = ctx.call("call-trace", ProbeRunner, s, cls="constructor", detail=tag)
     if not okc:
         return
-    uid = check_run(ctx, runner, s, tag, "first", 0)
+    if idx % 4 == 3:
+        # the first simulate() dies in user code after k calls; the user fixes the
+        # problem and calls simulate() again on the same runner
+        want_trace0, _, _ = model(s, expected_variations(s), 0)
+        runner.abort_at = int(rng.integers(0, len(want_trace0)))
+        try:
+            runner.simulate()
+            ctx.tally("abort-not-reached")
+        except RuntimeError:
+            ctx.tally("aborted-first-simulate")
+        except SkipThisOne:
+            pass
+        runner.abort_at = None
+        tag = {**tag, "first-simulate-aborted-after-calls": len(runner.trace)}
+    uid = check_run(ctx, runner, s, tag, "first", runner.next_uid)
     if uid is None:
         ctx.sig("runner", len(s.unpacked), s.rep_max, s.pred_kind, s.skip_kind, "aborted")
         return
@@ -453,6 +484,90 @@ def case_single(ctx, rng, idx):
                            "current_rep": part.current_rep, "key": key,
                            "want_key": variations2[vsel2][1]})
     ctx.tally("reconfigured-single-runs")
+
+
+def case_files(ctx, rng, idx):
+    """A runner WITH a results file name, simulated repeatedly: which
+    combinations run again depends only on which complete partial files are on
+    disk (all deleted after a finished simulate() when deletion is on, all kept
+    otherwise)."""
+    s = gen_spec(rng)
+    while not s.unpacked:
+        s = gen_spec(rng)
+    s.skip_kind = "none" if rng.random() < 0.6 else s.skip_kind
+    if rng.random() < 0.2:
+        s.rep_max = int(rng.choice([500, 501, 1003]))       # the periodic save registers the file too
+        s.pred_kind, s.pred_arg = "always", None
+        s.skip_kind = "none"
+        s.unpacked = {k: list(v)[:2] for k, v in list(s.unpacked.items())[:1]}
+    variations = expected_variations(s)
+    nvar = len(variations)
+    delete = bool(rng.integers(0, 2))
+    wd = os.path.join(core.workdir(), "files_%d" % idx)
+    import shutil
+    shutil.rmtree(wd, ignore_errors=True)
+    os.makedirs(wd)
+    runner = ProbeRunner(s)
+    runner.set_results_filename(os.path.join(wd, "res"))
+    runner.partial_results_folder = os.path.join(wd, "partial")
+    runner.delete_partial_results_bool = delete
+    tag = {**spec_tag(s), "delete_partial_results": delete}
+    disk = {}                      # variation index -> outcome dict of the model
+    ops = []
+    nops = int(rng.integers(2, 5))
+    for step in range(nops):
+        single = rng.random() < 0.35 and step < nops - 1
+        n0 = len(runner.trace)
+        if single:
+            v = int(rng.integers(0, nvar))
+            ops.append("simulate(%d)" % v)
+            todo = [variations[v]] if v not in disk else []
+        else:
+            ops.append("simulate()")
+            todo = [variations[v] for v in range(nvar) if v not in disk]
+        want_trace, want, uid_end = model(s, todo, runner.next_uid)
+        d = lambda **e: (lambda: {**tag, "ops": list(ops), "on_disk_before": sorted(disk), **e})
+        try:
+            runner.simulate(v) if single else runner.simulate()
+        except SkipThisOne as e:
+            ctx.ev("call-trace", False, cls="files:SkipThisOne-propagated", detail=d(exc=repr(e)))
+            return
+        except Exception as e:
+            import traceback
+            ctx.ev("call-trace", False, cls="files:simulate-raised:" + type(e).__name__,
+                   detail=d(tb=traceback.format_exc(limit=-4)))
+            return
+        got_trace = runner.trace[n0:]
+        ctx.ev("call-trace", got_trace == want_trace, cls="files:order-or-count",
+               detail=d(got_len=len(got_trace), want_len=len(want_trace),
+                        got_head=got_trace[:6], want_head=want_trace[:6]))
+        for (vi, _), w in zip(todo, want):
+            disk[vi] = w
+        if got_trace != want_trace:
+            return
+        if not single:
+            res = runner.results
+            okc = all(len(res[nm]) == nvar for nm in ("ids", "cnt"))
+            ctx.ev("stored-results", okc, cls="files:one-result-per-variation",
+                   detail=d(got=[len(res[nm]) for nm in ("ids", "cnt")]))
+            if okc:
+                for vi in range(nvar):
+                    w = disk[vi]
+                    ids = list(res["ids"][vi].get_result_accumulated_values())
+                    ctx.ev("stored-results", ids == w["ids"] and
+                           res["cnt"][vi].get_result() == w["reps"],
+                           cls="files:ids-merged-exactly-once",
+                           detail=d(variation=vi, got=ids[:12], want=w["ids"][:12]))
+                ctx.ev("repetition-counts", list(runner.runned_reps) == [disk[vi]["reps"]
+                                                                         for vi in range(nvar)],
+                       cls="files:runned_reps", detail=d(got=list(runner.runned_reps)))
+            if delete:
+                left = [f for dp, _, fs in os.walk(wd) for f in fs if "_unpack_" in f]
+                ctx.ev("stored-results", not left, cls="files:partial-files-left-behind",
+                       detail=d(files=left))
+                disk = {}
+        ctx.sig("files", delete, single, len(disk) == nvar, s.rep_max >= 500, step)
+    shutil.rmtree(wd, ignore_errors=True)
 
 
 def case_app(ctx, rng, idx):
@@ -576,6 +691,7 @@ GENS = {
     "runner": Gen(case_runner, 2500, 300000),
     "single": Gen(case_single, 600, 80000),
     "app": Gen(case_app, 90, 9000),
+    "files": Gen(case_files, 250, 25000),
 }
 MIN_EVALS = {"call-trace": 1500, "stored-results": 5000, "repetition-counts": 1500,
              "skip-counts": 3000, "lookup-by-fixed-values": 2000, "single-variation": 500,
